@@ -147,6 +147,21 @@ def sites(F):
     return out
 
 
+def cas_test(t):
+    """k of `compare_exchange(k, k, ..)`: a read-modify-write that changes nothing and answers Ok exactly when the word holds k
+    (the strong form; the weak form may also answer Err while the word holds k). None otherwise."""
+    if len(t["args"]) < 3:
+        return None
+    c1, c2 = operand_const(t["args"][1]), operand_const(t["args"][2])
+    cur = c1.get("int") if c1 else None
+    new = c2.get("int") if c2 else None
+    return cur if cur is not None and cur == new else None
+
+
+def cas_is_weak(t):
+    return (callee_of(t) or "").endswith("compare_exchange_weak")
+
+
 def cas_increment(t):
     """(current, new) of `compare_exchange(current, new, ..)` with constant operands and new > current, else None."""
     if len(t["args"]) < 3:
